@@ -29,6 +29,33 @@ CHECKS = {
  "C17": dict(engine="sim", technique="property-based testing: generated multi-drop sessions (all unit ids, broadcast) vs. reference multi-drop rules",
              text="Generated RTU/MBAP sessions with the unit-id dimension opened up; per-frame observation of written bytes and per-unit handler logs vs. the reference multi-drop rules (silence unless addressed, broadcast writes reach every unit exactly once and are never answered).",
              ref="DESIGN.md section 4 C17"),
+ "C03": dict(engine="sim", technique="property-based testing: generated client requests vs. reference encoder (accept => exact frame, reject => nothing on the wire); enumeration of the AddressRange constructor grid (all 2^32 pairs in the thorough tier)",
+             text="Generated client sessions over all eight request kinds, three submission styles, a (start,count) lattice around every protocol limit and value vectors up to 70000 elements; each transmitted frame is compared byte for byte with an independent encoder and every rejected request must leave the wire untouched. The AddressRange constructor is enumerated on a boundary lattice (quick) or exhaustively over u16 x u16 (thorough).",
+             ref="DESIGN.md section 4 C03"),
+ "C04": dict(engine="sim", technique="property-based testing: mutated reply PDUs vs. a reference reply classifier",
+             text="One outstanding request x one generated reply (genuine or single-field mutation, exceptions with 0/1/2 code bytes, random bytes) on MBAP and RTU; the result must be exactly the encoded values, exactly the exception, or a non-exception error as the classifier says; exactly one completion.",
+             ref="DESIGN.md section 4 C04"),
+ "C05": dict(engine="sim", technique="property-based testing: metamorphic relation over partitions of one byte stream + reference MBAP deframer / reference server",
+             text="Each generated stream is delivered under 6..8 chunkings (byte-per-byte, cuts inside headers/bodies, reads filling the 260-byte buffer) in both roles; all must give the same replies, handler calls, results, instants and end reason as the one-frame-per-read run, which itself is judged by the reference server; malformed headers must end the session at that point.",
+             ref="DESIGN.md section 4 C05"),
+ "C06": dict(engine="sim", category="fault_enumeration", technique="fault enumeration inside property-based testing: every 1-bit corruption of generated RTU frames (all 2-bit pairs on short frames, sampled bursts) vs. an independent bitwise CRC-16 and reference deframer",
+             text="For generated request/reply frames: all single-bit flips, all double-bit flips on frames <=16 bytes, sampled multi-bit flips and <=16-bit bursts, CRC byte swaps; the session may act only if the reference deframer (independent CRC) finds a verifying frame. Emitted frames are checked against the same reference; RTU chunking is checked metamorphically.",
+             ref="DESIGN.md section 4 C06"),
+ "C07": dict(engine="sim", technique="property-based fuzzing: grammar-aware mutation of valid traffic + random bytes, panic/overflow detection, deterministic poll-budget progress monitor, shutdown probe; libFuzzer targets carry the same oracle",
+             text="Mutated and random byte streams in both roles, both framings and all 36 decode levels with a formatting tracing subscriber installed, built with overflow checks and debug assertions; no panic, bounded polls per input byte, session ends or parks and then honours shutdown, client requests complete exactly once, task ends when handles are dropped.",
+             ref="DESIGN.md section 4 C07"),
+ "C10": dict(engine="sim", technique="stateful property-based testing: generated operation histories (Vec<Op> + interpreter) against a completion-ledger invariant and error-justification predicates",
+             text="Generated histories of up to 40 operations (submit in three styles, enable/disable/shutdown/set-decode, clone/drop handles, cancel the caller, abort the task, peer faults) over scripted connections in virtual time; every accepted request must complete exactly once and every error class must be justified by the history.",
+             ref="DESIGN.md section 4 C10"),
+ "C11": dict(engine="sim", technique="property-based testing: scripted peer with stale/future/duplicate transaction ids vs. a reference stream model; long run across the 16-bit wrap",
+             text="Queued requests against a peer that interleaves genuine, stale, future and duplicate frames around the deadlines; transmitted ids, ordering, no pipelining and per-request provenance of results are compared with a reference model in virtual time; one 70k-request run crosses the id wrap.",
+             ref="DESIGN.md section 4 C11"),
+ "C12": dict(engine="sim", technique="property-based testing on a paused (virtual) clock: deadline arithmetic and consecutive-timeout counter model",
+             text="Per-request timeouts and reply completion instants generated around the deadline (T-1 ms / T+1 ms, replies split across the deadline), outcome sequences and limits N; completion instants must equal the model's to the millisecond and the connection must drop exactly at the N-th consecutive timeout.",
+             ref="DESIGN.md section 4 C12"),
+ "C20": dict(engine="sim", technique="property-based testing: metamorphic relation across decode levels and run-time level changes",
+             text="Cases from the C01/C08/C11/C12 generators re-executed at decode level nothing, highest, random and with a level change injected at a generated script position; wire bytes, results, instants, handler logs and end reasons must be identical.",
+             ref="DESIGN.md section 4 C20"),
 }
 
 NOT_YET = {
